@@ -35,6 +35,10 @@ type fzres struct {
 	alloc  uint64
 }
 
+// fzWatchdog: how long one entry point may take before it counts as a hang (long-stream entries, which read millions of
+// frames in a child process, get more: a loaded machine must not turn them into a false "hang")
+var fzWatchdog = 3 * time.Second
+
 // fzRun executes f under recover, a watchdog and allocation accounting.
 func fzRun(f func() error) fzres {
 	done := make(chan fzres, 1)
@@ -75,7 +79,7 @@ func fzRun(f func() error) fzres {
 	select {
 	case r := <-done:
 		return r
-	case <-time.After(3 * time.Second):
+	case <-time.After(fzWatchdog):
 		return fzres{class: "hang", detail: "-"}
 	}
 }
@@ -89,6 +93,7 @@ func fzOne(entry string, data []byte) string {
 		// peer sends ends in the runtime's fatal "stack overflow" within a stream of a few megabytes
 		data = fzExpand(data)
 		debug.SetMaxStack(4 << 20)
+		fzWatchdog = 60 * time.Second
 	}
 	r := fzRun(func() error {
 		switch entry {
@@ -246,7 +251,7 @@ func fzx(c *ctx, entry string, data []byte) {
 			return
 		}
 		c.emit("FZX %s %s -> %s", entry, hx(data), strings.TrimSpace(out.String()))
-	case <-time.After(20 * time.Second):
+	case <-time.After(90 * time.Second):
 		cmd.Process.Kill()
 		c.emit("FZX %s %s -> hang - 0 0", entry, hx(data))
 	}
